@@ -319,7 +319,7 @@ def gen(run):
     # HPRINT numeric item, options
     cases.append({"text": "10 A=5\n20 HPRINT(1,2),A\n", "opts": {}, "hbuff": False, "features": {"form:hprint", "hprint-numeric"}, "origin": "hprint numeric"})
     # pairs on one line
-    pair_forms = [f for f in FORMS if f[0] in ("cls", "locate", "sound", "hcircle_c", "hline_rel_b", "hset3", "hpaint1", "hbuff", "hput_and", "set", "palette", "button_e", "point_e", "hprint", "play", "attr_bu", "hcolor1")]
+    pair_forms = [f for f in FORMS if f[0] in ("cls", "locate", "sound", "hcircle_c", "hline_rel_b", "hset3", "hpaint1", "hbuff", "hput_and", "hput_pset", "hput_preset", "hput_xor", "set", "palette", "button_e", "point_e", "hprint", "play", "attr_bu", "hcolor1")]
     if not quick:
         pair_forms = list(FORMS)
     for (n1, t1), (n2, t2) in itertools.product(pair_forms, repeat=2):
